@@ -251,7 +251,9 @@ class Direct:
                 self.nrx += 1 if new else 0
                 phase = str(max(self.nrx - 1, 0))
             elif ph == "dilate":
-                phase = "dilate-0" if new else "dilate-0"
+                phase = "dilate-0"
+            elif ph == "other":
+                phase = "foo"
             else:
                 phase = ph
             if side == "ours":
@@ -261,7 +263,15 @@ class Direct:
                 fr = self._frame(type="message", side=c.side, phase=m["phase"], body=m["body"], id="aa")
             else:
                 if phase == "pake":
-                    body = dict_to_bytes({"pake_v1": self.peer_msg.hex()})
+                    pk = t[5] if len(t) > 5 else "good"
+                    if pk == "nofield":
+                        body = b"{}"
+                    elif pk == "invalid":
+                        body = dict_to_bytes({"pake_v1": "53" + "ff" * 32})
+                    elif good or not self.match:
+                        body = dict_to_bytes({"pake_v1": self.peer_msg.hex()})
+                    else:       # a stranger's well-formed element
+                        body = dict_to_bytes({"pake_v1": SPAKE2_Symmetric(b"9-stranger", idSymmetric=b"x").start().hex()})
                 else:
                     body = self._peer_body(phase, good)
                 fr = self._frame(type="message", side="peerside", phase=phase, body=body.hex(), id="bb")
